@@ -2031,7 +2031,7 @@ def param_deps(fl: Flow, e: ast.AST, nid: int, fuel: int = 6) -> set[str]:
     return out
 
 
-def check_pool(run: Run, prog: Program) -> None:
+def check_pool(run: Run, prog: Program, rule: str = "C05.POOL", policy_mode: bool = False) -> None:
     """C05.POOL ("for every formula built from a formula string ... evaluated on the input values"): the string path
     is entered through whoever calls ResampledFormulaBuilder(...).from_string(...).  When that caller hands out a
     *stored* engine instead of building one (a cache: `if key in self.<table>: return self.<table>[key]`), the key
@@ -2039,7 +2039,12 @@ def check_pool(run: Run, prog: Program) -> None:
     second request that differs only in the forgotten parameter (another metric, another formula text) is answered
     with the first request's engine: a well-formed stream of the wrong expression / the wrong inputs.  Parameters
     that only reach from_string's missing-value policy are left to C13 (they do not matter for finite inputs); a key
-    that is itself a parameter is the caller's contract and not judged."""
+    that is itself a parameter is the caller's contract and not judged.
+
+    `policy_mode` (C13.POOL) is the complementary half: only the parameters that reach from_string's missing-value
+    policy (`nones_are_zeros`) are demanded of the key -- a second request for the same formula with the other setting
+    must not be answered with the first request's engine ("on streams so configured a missing value behaves exactly
+    like 0", for *that* caller)."""
     rfb = prog.cls(f"{RFB}:ResampledFormulaBuilder")
     fs = prog.resolve_method(rfb, "from_string")
     if fs is None:
@@ -2062,13 +2067,13 @@ def check_pool(run: Run, prog: Program) -> None:
             # what the engine is made from
             needs: dict[str, str] = {}
             for ctor, q in zip(ctors, bo):
-                for a in list(ctor.args) + [k.value for k in ctor.keywords]:
+                for a in ([] if policy_mode else list(ctor.args) + [k.value for k in ctor.keywords]):
                     for p in param_deps(q.flow, a, q.nid):  # type: ignore[arg-type]
                         needs.setdefault(p, f"{rfb.name}(...)")
             fa = positional(fcall, [p for p in fs.params if p != "self"])
             for pname, a in fa.items():
                 for p in param_deps(fl, a, fnid):
-                    if pname in policy:
+                    if (pname in policy) != policy_mode:
                         continue
                     needs.setdefault(p, f"from_string({pname}=...)")
             needs.pop("self", None)
@@ -2083,28 +2088,30 @@ def check_pool(run: Run, prog: Program) -> None:
                     elif isinstance(e, ast.Call) and isinstance(e.func, ast.Attribute) and e.func.attr == "get" and u(e.func.value).startswith("self.") and e.args:
                         hits.append((o.nid if o.nid is not None else r, e.func.value, e.args[0]))
             if not hits:
-                run.ok("C05.POOL", f"{fn.qual}: every request builds its own engine (nothing cached)")
+                run.ok(rule, f"{fn.qual}: every request builds its own engine (nothing cached)")
                 continue
             for hn, table, key in hits:
                 ko = fl.origin(key, hn)
                 if ko and all(q.kind == "param" and q.name not in needs for q in ko):
-                    run.ok("C05.POOL", f"{fn.qual}: the cache key `{u(key)}` is supplied by the caller")
+                    run.ok(rule, f"{fn.qual}: the cache key `{u(key)}` is supplied by the caller")
                     continue
                 have = param_deps(fl, key, hn)
                 missing = sorted(p for p in needs if p not in have)
-                run.check(not missing, "C05.POOL", fn.qual, f"cache key of {u(table)} covers what the engine is built from",
+                run.check(not missing, rule, fn.qual, f"cache key of {u(table)} covers what the engine is built from",
                           f"`{u(table)}[{u(key)}]` hands out a stored engine, but the key is computed from {sorted(have) or 'nothing'} only while the "
                           f"engine is built from {', '.join(f'{p} (-> {needs[p]})' for p in sorted(needs))}: a later request that differs only in "
                           f"{missing} gets the engine of the earlier one -- the samples it emits are the value of the expression on the WRONG "
                           "inputs (another metric of the same components) or of another expression, with perfectly plausible timestamps.  "
-                          "Every parameter that selects the expression or its inputs has to be part of the key",
+                          "Every parameter that selects the expression or its inputs has to be part of the key"
+                          + ("; here the forgotten parameter is the missing-value policy: the second caller's missing inputs are "
+                             "treated the first caller's way (None instead of 0, or 0 instead of None)" if policy_mode else ""),
                           node=key, file=fn.file, instance=f"{fn.qual}: key `{u(key)}` of {u(table)}")
                 # ... and the engine is stored under the key it is looked up with
                 stores = [n for n in cfg.nodes if n.id in fl.live and isinstance(n.ast, ast.Assign) and isinstance(n.ast.targets[0], ast.Subscript)
                           and u(n.ast.targets[0].value) == u(table)]
                 ok = bool(stores) and all(names_eq(fl.origin(n.ast.targets[0].slice, n.id), ko) or (  # type: ignore[union-attr]
                     not isinstance(n.ast.targets[0].slice, ast.Name) and u(n.ast.targets[0].slice) == u(key)) for n in stores)  # type: ignore[union-attr]
-                run.check(ok, "C05.POOL", fn.qual, f"{u(table)} is filled under the key it is read with",
+                run.check(ok, rule, fn.qual, f"{u(table)} is filled under the key it is read with",
                           f"the engine is stored in {u(table)} under another key than the one it is looked up with", node=key, file=fn.file,
                           instance=f"{fn.qual}: store key of {u(table)}")
     if not callers:
